@@ -230,6 +230,16 @@ func castValue(r *gen.R, from, to ref.DType) uint64 {
 				v = math.Abs(v)
 			}
 			b = ref.EncF(from, v)
+		case from.IsFloat() && (to == ref.U64 || to == ref.I64) && r.Chance(0.15):
+			// magnitudes between 2^53 and the end of the 64-bit ranges (beyond 2^63 for uint64)
+			v := math.Ldexp(1+float64(r.Intn(1<<20))/float64(1<<20), r.Range(53, 63))
+			if to == ref.I64 {
+				v = math.Ldexp(1+float64(r.Intn(1<<20))/float64(1<<20), r.Range(53, 62))
+				if r.Bool() {
+					v = -v
+				}
+			}
+			b = ref.EncF(from, v)
 		case r.Chance(0.35):
 			b = r.SpecialBits(from)
 		case r.Chance(0.3) && to.IsInt(): // extremes of the target
